@@ -1,6 +1,7 @@
 package main
 
 import (
+	"fmt"
 	"strconv"
 	"go/token"
 	"go/types"
@@ -367,24 +368,67 @@ func firstRet(c *Ctx, f *Fn, i int) *X {
 // package dhash hashes: SHA256(append(a, b...), dest) and
 // sha256Multiple(dest, a, b) both give [a, b]. nil if x is neither.
 func sha256Pieces(c *Ctx, x *X) []*X {
+	return sha256PiecesD(c, x, nil, 0)
+}
+
+func sha256PiecesD(c *Ctx, x *X, env map[ssa.Value]*X, depth int) []*X {
 	x = strip(x)
-	if b, ok := Match(Call("dhash.SHA256", Bind("in")), x); ok {
-		var flat func(y *X) []*X
-		flat = func(y *X) []*X {
-			y = strip(y)
-			if y.Op == "builtin" && y.Name == "append" && len(y.Args) == 2 {
-				if es := variadicElems(c, y.Args[1]); es != nil {
-					return nil // appends single bytes, not a byte string
-				}
-				head := flat(y.Args[0])
-				if head == nil {
-					return nil
-				}
-				return append(head, y.Args[1])
+	var flat func(y *X) []*X
+	flat = func(y *X) []*X {
+		y = strip(y)
+		if y.Op == "builtin" && y.Name == "append" && len(y.Args) == 2 {
+			if es := variadicElems(c, y.Args[1]); es != nil {
+				return nil // appends single bytes, not a byte string
 			}
-			return []*X{y}
+			head := flat(y.Args[0])
+			if head == nil {
+				return nil
+			}
+			return append(head, y.Args[1])
 		}
+		// scratch[:0]: the empty head of an append chain (longer input spills to the heap)
+		if y.Op == "slice" && len(y.Args) == 4 && y.Args[0].Op == "alloc" && y.Args[2] != nil && y.Args[2].Op == "const" && y.Args[2].Name == "0" {
+			return []*X{}
+		}
+		return []*X{y}
+	}
+	if b, ok := Match(Call("dhash.SHA256", Bind("in")), x); ok {
 		return flat(b["in"])
+	}
+	// sum := sha256.Sum256(in); sum[:]
+	if x.Op == "slice" && len(x.Args) == 4 && x.Args[1].Op == "nil" && x.Args[2].Op == "nil" {
+		if al, ok := x.Args[0].V.(*ssa.Alloc); ok && al.Referrers() != nil {
+			var in *X
+			n := 0
+			for _, r := range *al.Referrers() {
+				if st, ok := r.(*ssa.Store); ok && st.Addr == ssa.Value(al) {
+					n++
+					if m, ok := Match(Call("crypto/sha256.Sum256", Bind("in")), subst(c.E(st.Val), env)); ok {
+						in = m["in"]
+					}
+				}
+			}
+			if n == 1 && in != nil {
+				return flat(in)
+			}
+		}
+	}
+	// a helper of the package that returns the digest of what it is handed
+	if call, ok := x.V.(*ssa.Call); ok && x.Op == "call" && depth < 3 {
+		if callee := call.Call.StaticCallee(); callee != nil && samePkgBody(call.Parent(), callee) && callee.Signature.Results().Len() == 1 {
+			var rets []*ssa.Return
+			for _, b := range callee.Blocks {
+				if r, ok := b.Instrs[len(b.Instrs)-1].(*ssa.Return); ok && b.Comment != "recover" {
+					rets = append(rets, r)
+				}
+			}
+			if len(rets) == 1 {
+				cenv := c.callEnv(call, callee, env)
+				if ps := sha256PiecesD(c, subst(c.RetX(rets[0], 0), cenv), cenv, depth+1); ps != nil {
+					return ps
+				}
+			}
+		}
 	}
 	if b, ok := Match(c.RoleCall("dhash.multi", Any(), Bind("ps")), x); ok {
 		return variadicElems(c, b["ps"])
@@ -632,6 +676,42 @@ func c12ValueKey(c *Ctx) {
 		}
 	}
 	c.Check(okS, "C12.D6-value-key", sp.Name+" › split at the leading multihash", sp.SSA.Pos(), "peer ID = leading multihash, context ID = the rest, on MHFromBytes err == nil", "value key is not split at the length of its leading multihash")
+	// …and splitting fails only where one of the two parsing steps fails: every key CreateValueKey builds — also one
+	// with an empty context ID, where nothing follows the multihash — splits back. A test of its own (other than the
+	// impossible "the multihash is longer than the key") rejects keys that were stored.
+	{
+		nFail, okFail, where := 0, true, token.NoPos
+		for _, b := range sp.SSA.Blocks {
+			ret, isRet := b.Instrs[len(b.Instrs)-1].(*ssa.Return)
+			if !isRet || b.Comment == "recover" || len(ret.Results) != 3 || c.RetX(ret, 2).Op == "nil" {
+				continue
+			}
+			nFail++
+			for _, f := range c.FactsAt(b) {
+				if f.If == nil {
+					continue
+				}
+				// the tests on the outcome of a parsing call
+				if f.Cond.Find(func(y *X) bool {
+					ex, ok := y.V.(*ssa.Extract)
+					return ok && y.Op == "extract" && isErrorType(ex.Type())
+				}) != nil {
+					continue
+				}
+				if f.Cond.Op == "binop" && len(f.Cond.Args) == 2 {
+					isLen := func(y *X) bool { return y.Op == "builtin" && y.Name == "len" }
+					l, r := f.Cond.Args[0], f.Cond.Args[1]
+					strict := (f.Cond.Name == ">" && f.Val && isLen(r)) || (f.Cond.Name == "<" && f.Val && isLen(l)) ||
+						(f.Cond.Name == "<=" && !f.Val && isLen(r)) || (f.Cond.Name == ">=" && !f.Val && isLen(l))
+					if strict {
+						continue
+					}
+				}
+				okFail, where = false, f.If.Cond.Pos()
+			}
+		}
+		c.Check(okFail && nFail >= 1, "C12.D6-value-key", sp.Name+" › fails only where parsing fails", sp.SSA.Pos(), fmt.Sprint(nFail)+" failure returns, each under a failed parsing call", "splitting rejects keys on a test of its own (at "+c.pos(where)+"): a key with nothing after the multihash (empty context ID) is well formed and must split back")
+	}
 	// second hash
 	if sm := c.Func(dhashPkg, "SecondMultihash"); sm != nil {
 		ok := false
@@ -660,7 +740,7 @@ func c12ValueKey(c *Ctx) {
 		}
 		c.Check(always, "C12.D6-value-key", sm.Name+" › hashes every input", sm.SSA.Pos(), "every return is the encoded second hash", "some inputs are returned without being hashed: their 'second hash' equals the original multihash, so the reader-privacy lookup reveals it")
 	}
-	c.Floor("C12.D6-value-key", 4)
+	c.Floor("C12.D6-value-key", 5)
 }
 
 // findClientPkgOf: module-relative path of the package a function belongs to.
